@@ -32,16 +32,24 @@ func genManager(repo string) {
 		before := src[:i]
 		first = strings.Contains(before, "ErrBranchUnlockedNode") && strings.Contains(before, "m.versionFromUUID(parent)")
 	}
+	dups := first && strings.Contains(src, "parentVs[j]==v") && strings.Contains(src, "listedmorethanonce")
+	fmt.Fprintf(&g.body, "/-- `merge` refuses a parent that is listed twice -/\ndef mergeRejectsDuplicateParents : Bool := %v\n", dups)
 	fmt.Fprintf(&g.body, "/-- `merge` validates every parent (known, same repo, committed) before allocating the child -/\ndef mergeValidatesFirst : Bool := %v\n", first)
 	// tag handler: is Commit(uuidTag) reached only when NewVersion succeeded?
 	src = norm(sv, "", "repoTagHandler")
 	only := false
 	if i := strings.Index(src, "newuuid,err:=datastore.NewVersion("); i >= 0 {
-		rest := src[i:]
-		j := strings.Index(rest, "iferr!=nil{\nBadRequest(w,r,err)\nreturn\n}")
+		rest := strings.ReplaceAll(src[i:], "\n", "")
+		j := strings.Index(rest, "iferr!=nil{BadRequest(w,r,err)return}")
 		k := strings.Index(rest, "datastore.Commit(uuidTag")
 		only = j >= 0 && k >= 0 && j < k
 	}
+	emptyRejected := false
+	if i := strings.Index(src, "ifjsonData.Tag==\"\"{"); i >= 0 {
+		k := strings.Index(src, "datastore.NewVersion(")
+		emptyRejected = k > i && strings.Contains(src[i:k], "return")
+	}
+	fmt.Fprintf(&g.body, "/-- the tag handler refuses an empty tag (it would become the nil UUID) -/\ndef tagRejectsEmpty : Bool := %v\n", emptyRejected)
 	fmt.Fprintf(&g.body, "/-- the tag handler commits the tag node only if creating it succeeded -/\ndef tagCommitsOnlyOnSuccess : Bool := %v\n", only)
 	facts.Extra["newUUIDChecksExisting"], facts.Extra["mergeValidatesFirst"], facts.Extra["tagCommitsOnlyOnSuccess"] = checks, first, only
 	// mutation id stride / initial value
